@@ -122,4 +122,39 @@ theorem evaluate_is_structural :
     (Gen.Evaluate.calls.filter (fun c => c.2.2.2)).map (fun c => (c.1, c.2.1)) = [("AnonFunction", "x.Body")] := by
   decide
 
+/-! ### indexing in the word and field functions never leaves the slice -/
+
+/-- `words[offset]` is only reached with `0 ≤ offset < len(words)`, for every index — negative ones
+count from the end, anything out of range is an error value -/
+theorem word_offset_in_range (n : Nat) (index offset : Int) (h : wordOffset n index = some offset) :
+    0 ≤ offset ∧ offset < n := by
+  unfold wordOffset at h
+  simp only at h
+  by_cases hc : (0 ≤ (if index < 0 then index + n else index) ∧ (if index < 0 then index + n else index) < n)
+  · rw [if_pos hc] at h; cases h; exact hc
+  · rw [if_neg hc] at h; cases h
+
+/-- `words[lo:hi]` is only reached with `0 ≤ lo ≤ hi ≤ len(words)`, for every start and end -/
+theorem word_slice_in_range (n : Nat) (start stop lo hi : Int) (h : wordSliceBounds n start stop = some (lo, hi)) :
+    0 ≤ lo ∧ lo ≤ hi ∧ hi ≤ n := by
+  unfold wordSliceBounds at h
+  simp only at h
+  repeat' split at h
+  all_goals first
+    | (cases h; omega)
+    | cases h
+
+/-- `fields[index]` is only reached with `0 ≤ index < len(fields)` -/
+theorem field_index_in_range (n : Nat) (index i : Int) (h : fieldIndex n index = some i) : 0 ≤ i ∧ i < n := by
+  unfold fieldIndex at h
+  repeat' split at h
+  all_goals first
+    | (cases h; omega)
+    | cases h
+
+/-- the guards are not vacuous: in-range requests go through, with the bounds one expects -/
+example : wordOffset 3 (-1) = some 2 ∧ wordOffset 3 3 = none ∧ wordSliceBounds 5 1 (-1) = some (1, 5) ∧
+    wordSliceBounds 5 1 3 = some (1, 3) ∧ wordSliceBounds 5 1 99 = some (1, 5) ∧ wordSliceBounds 5 3 2 = none ∧
+    wordSliceBounds 5 1 0 = some (1, 5) ∧ fieldIndex 2 1 = some 1 ∧ fieldIndex 2 2 = none := by decide
+
 end GoflowModel.Props.C04
